@@ -48,3 +48,21 @@ Theorem C01_network_matrix_is_TU_by_definition : forall m n M G rv forest cofore
   GraphModel.check_network_cert m n M G rv forest coforest = true -> TUmx (mx_of m n M).
 Proof. exact NetworkTU.network_cert_TU_gen. Qed.
 Print Assumptions C01_network_matrix_is_TU_by_definition.
+
+(* ---------- every size: a {-1,0,1} matrix that series-parallel reductions (zero / unit / (negated) copy lines) reduce to
+   nothing is totally unimodular (SpTU.v, by induction over the reductions), so `tu_net` records without witness whose matrix
+   the reduction model accepts are judged against the definition as well ---------- *)
+From Cmr Require SpModel SpTU.
+Theorem C01_series_parallel_matrices_of_every_size : forall rec cfg m n M rc v sub rest,
+  TuNetModel.tu_net_input rec = Some ((cfg, (m, n, M), rc, v, sub, GraphModel.WNone), rest) ->
+  is_ternary M = true -> SpModel.sp_greedy true m n M = true ->
+  TuNetModel.judge_tu_net rec = Z0 ->
+  rc = Z0 /\ tu_bf m n M = true /\ (v = Zpos (xO xH) -> cfg_stopflags cfg = true) /\
+  (v <> Zpos (xO xH) -> v = Zpos xH /\ sub = None).
+Proof. exact TuNetProofs.judge_tu_net_sound_sp. Qed.
+Print Assumptions C01_series_parallel_matrices_of_every_size.
+
+Theorem C01_series_parallel_is_TU : forall m n M, wf_mat m n M = true -> is_ternary M = true ->
+  SpModel.sp_greedy true m n M = true -> tu_bf m n M = true.
+Proof. exact SpTU.sp_ternary_TU. Qed.
+Print Assumptions C01_series_parallel_is_TU.
